@@ -4,6 +4,7 @@ import (
 	"fmt"
 	"sort"
 	"strings"
+	"time"
 
 	"github.com/nalgeon/redka"
 	"github.com/nalgeon/redka/verifhook"
@@ -100,6 +101,55 @@ func (p *casePool) Take(kind string) (opCase, bool) {
 	}
 	p.next[kind] = i + 1
 	return p.occ[kind][i], true
+}
+
+// TakeWhere returns the next unused occurrence of the kind that satisfies pred, looking at up to
+// `look` unused occurrences; when none does, the next unused one.
+func (p *casePool) TakeWhere(kind string, look int, pred func(opCase) bool) (opCase, bool) {
+	occ := p.occ[kind]
+	i := p.next[kind]
+	for j := i; j < len(occ) && j < i+look; j++ {
+		if pred(occ[j]) {
+			occ[i], occ[j] = occ[j], occ[i]
+			break
+		}
+	}
+	return p.Take(kind)
+}
+
+// changesDatabase runs the case's prefix and target on a scratch in-memory database and reports
+// whether the target changes the stored content (so that a fault in it has something to undo).
+func changesDatabase(c opCase) bool {
+	x, err := hx.OpenMemDriver(fmt.Sprintf("eff_%d", time.Now().UnixNano()), hx.FaultDriverName)
+	if err != nil {
+		return false
+	}
+	defer x.Close()
+	for _, st := range c.Prefix {
+		runStepRaw(x, st)
+	}
+	d0, _ := x.DumpRaw()
+	runStepRaw(x, c.Target)
+	d1, _ := x.DumpRaw()
+	return d0 != d1
+}
+
+// opCasesWhere is opCases with a preference: of each kind, occurrences satisfying pred come first.
+func opCasesWhere(seed int64, n int, profiles []string, tweak func(*hx.Profile), ok func(*hx.Step) bool, covered map[string]int, pred func(opCase) bool) []opCase {
+	p := newCasePool(seed, profiles, 40, tweak, ok)
+	var out []opCase
+	for round := 0; len(out) < n && round < 40; round++ {
+		for _, k := range p.kinds {
+			if len(out) >= n {
+				break
+			}
+			if c, found := p.TakeWhere(k, 80, pred); found {
+				covered[k]++
+				out = append(out, c)
+			}
+		}
+	}
+	return out
 }
 
 // opCases takes n cases round-robin over the kinds.
